@@ -50,7 +50,7 @@ def classify(src, o, extra=None):
         return "KF-C11-version-check-no-position"
     if msg.startswith("Unmatched closing paren") and e.get("lineno") is None:
         return "KF-C11-macro-paren-no-position"
-    if e.get("cls") == "IndentationError" and msg.startswith("unindent does not match"):
+    if e.get("cls") == "IndentationError" and msg.startswith("unindent does not match") and all(p.startswith(("no end position",)) for p in o.get("problems", [])):
         return "KF-C11-tokenizer-indentation-error"
     if (e.get("lineno") == 1 or True) and e.get("offset") in (0, None) and any(k in msg for k in ("invalid", "literal", "Exceeds", "too many", "malformed", "unterminated", "unicode", "codec", "escape", "null")) and "<unknown>" == (e.get("text") and "<unknown>"):
         return None
@@ -62,7 +62,7 @@ INVALID_SNIPPETS = [
     "class A\n    pass\n", "import\n", "from . import\n", "f(**a, *b)\n", "f(a=1, b)\n", "(a, b) += 1\n", "a + 1 = 2\n", "del f()\n", "for f() in x: pass\n", "with a as 1: pass\n", "x = {1: 2, 3}\n",
     "lambda x=1, y: 0\n", "def f(a=1, b): pass\n", "def f(*): pass\n", "def f(**k, a): pass\n", "try:\n    pass\n", "try:\n  pass\nexcept A, B:\n  pass\n", "else:\n  pass\n", "x = 'abc\n", "if a:\npass\n",
     "  x = 1\n", "if a:\n    b\n  c\n", "while True:\n\tx\n        y\n", "a ? b\n", "$(\n", "x = $\n", "f!(]\n", "f!(a) b\n", "with! a\n", "x = `abc\n", "match x:\n    case 1 | y | 2: pass\n", "match x:\n  case [a, *b, *c]: pass\n",
-    "x = 1 if 2\n", "x = not\n", "a.\n", "a[\n", "@\ndef f(): pass\n", "@dec\n", "x = yield = 1\n", "None = 1\n", "True += 1\n", "f(x for x in y)(\n", "1 = x\n", "'a' = 1\n", "f() = 1\n", "x = 5 5\n", "x = (a b)\n", "[a b]\n", "{a b}\n", "f(a b)\n",
+    "x = 1 if 2\n", "if a:\n\t\tx\n\ty\n", "if a:\n\t  x\n\t y\n", "f(a, *)\n", "print(x, y, *, sep='')\n", "x = not\n", "a.\n", "a[\n", "@\ndef f(): pass\n", "@dec\n", "x = yield = 1\n", "None = 1\n", "True += 1\n", "f(x for x in y)(\n", "1 = x\n", "'a' = 1\n", "f() = 1\n", "x = 5 5\n", "x = (a b)\n", "[a b]\n", "{a b}\n", "f(a b)\n",
     "a = 1\nb = (2,\n  3\nc = 4\n", "x = [\n  1,\n  2\n  3\n]\n", "def f():\n    return (1,\n\n        2 3)\n", "s = '''a\nb''' 'c' 5\n", "s = ('''a\nb\nc''' 3)\n", "x = {\n 'a': 1\n 'b': 2}\n", "async x\n", "await = 3 4\n",
     "class A[T]: pass\n", "type X = int\n", "try:\n  pass\nexcept* E:\n  pass\n", "def f[T](x): pass\n",
     "x = 0777\n", "x = 1__0\n", "x = 0b12\n", "x = 1.2.3\n", "x = 1e\n", "x = '\\x'\n", "x = b'é'\n", "x = 1_\n", "x = 0_7\n", "x = 10**99999j +\n", "import a.b as\n", "from a import (b\n", "global\n", "nonlocal 1\n", "assert\n", "raise from x\n", "return = 1\n",
@@ -94,6 +94,9 @@ def build_inputs(tier):
             cases.append(("tokedit", m + "\n", "exec", None))
     for s in corpus.PY_EXPRS:
         cases.append(("expr", mutate.damage(s, r), "eval", None))
+    for s in list(corpus.PY_STMTS) + list(xonshgen.XONSH_STMTS):
+        for d in mutate.token_deletions(s):
+            cases.append(("tokdel", d, "exec", None))
     seen = set()
     return [c for c in cases if not ((c[1], c[2], c[3]) in seen or seen.add((c[1], c[2], c[3])))]
 
